@@ -110,7 +110,15 @@ theorem frag_noEnum : ∀ (t : Ty), frag t = true → noEnum t = true
   | .struct _ fs, h => by
     simp only [frag, Bool.and_eq_true] at h
     simpa [noEnum] using fragFields_noEnum fs h.2
-  | .tuple _, h | .tupleStruct _ _, h | .enum _ _, h => by simp [frag] at h
+  | .tuple ts, h | .tupleStruct _ ts, h => by
+    simp only [frag] at h
+    simpa [noEnum] using fragTys_noEnum ts h
+  | .enum _ _, h => by simp [frag] at h
+theorem fragTys_noEnum : ∀ (ts : Tys), fragTys ts = true → noEnumTys ts = true
+  | .nil, _ => by simp [noEnumTys]
+  | .cons t r, h => by
+    simp only [fragTys, Bool.and_eq_true] at h
+    simp [noEnumTys, frag_noEnum t h.1, fragTys_noEnum r h.2]
 theorem fragFields_noEnum : ∀ (fs : TFields), fragFields fs = true → noEnumFields fs = true
   | .nil, _ => by simp [noEnumFields]
   | .cons _ _ t r, h => by
